@@ -166,6 +166,10 @@ func NewVersionedSignedProposal(proposal *eth2api.VersionedSignedProposal) (Vers
 			return VersionedSignedProposal{}, errors.New("no deneb proposal")
 		}
 
+		if !proposal.Blinded && proposal.Deneb.SignedBlock == nil {
+			return VersionedSignedProposal{}, errors.New("no deneb signed block")
+		}
+
 		if proposal.DenebBlinded == nil && proposal.Blinded {
 			return VersionedSignedProposal{}, errors.New("no deneb blinded proposal")
 		}
@@ -174,12 +178,20 @@ func NewVersionedSignedProposal(proposal *eth2api.VersionedSignedProposal) (Vers
 			return VersionedSignedProposal{}, errors.New("no electra proposal")
 		}
 
+		if !proposal.Blinded && proposal.Electra.SignedBlock == nil {
+			return VersionedSignedProposal{}, errors.New("no electra signed block")
+		}
+
 		if proposal.ElectraBlinded == nil && proposal.Blinded {
 			return VersionedSignedProposal{}, errors.New("no electra blinded proposal")
 		}
 	case eth2spec.DataVersionFulu:
 		if proposal.Fulu == nil && !proposal.Blinded {
 			return VersionedSignedProposal{}, errors.New("no fulu proposal")
+		}
+
+		if !proposal.Blinded && proposal.Fulu.SignedBlock == nil {
+			return VersionedSignedProposal{}, errors.New("no fulu signed block")
 		}
 
 		if proposal.FuluBlinded == nil && proposal.Blinded {
@@ -589,6 +601,11 @@ func (p *VersionedSignedProposal) UnmarshalJSON(input []byte) error {
 	}
 
 	resp.Blinded = raw.Blinded
+
+	// A JSON null block unmarshals into a nil pointer; reject it like the constructor does.
+	if _, err := NewVersionedSignedProposal(&resp); err != nil {
+		return errors.Wrap(err, "invalid proposal")
+	}
 
 	p.VersionedSignedProposal = resp
 
@@ -1073,6 +1090,11 @@ func (r *VersionedSignedValidatorRegistration) UnmarshalJSON(input []byte) error
 		resp.V1 = registration
 	default:
 		return errors.New("unknown version")
+	}
+
+	// A JSON null registration unmarshals into a nil pointer; reject it like the constructor does.
+	if _, err := NewVersionedSignedValidatorRegistration(&resp); err != nil {
+		return errors.Wrap(err, "invalid validator (builder) registration")
 	}
 
 	r.VersionedSignedValidatorRegistration = resp
